@@ -1,1 +1,388 @@
-//! corpus — stub (to be implemented).
+//! corpus — valid files of every noodles format, canonical "transcript" drivers of every synchronous
+//! reader and canonical write histories of every writer. Shared by C12 (read chunking), C13 (truncation),
+//! C14 (sink failures), C15 (corrupt input) and, as the sync oracle, C16.
+//!
+//! # API
+//!
+//! ```text
+//! enum Kind { Bgzf, Bam, BamRaw, Bcf, BcfRaw, Cram, Sam, SamGz, Vcf, VcfGz, Fasta, Fastq, Gff, Gtf, Bed,
+//!             Bai, Csi, Tbi, Gzi, Fai, FastqFai, Crai }            Kind::ALL, name(), is_index(), is_bgzf_wrapped(),
+//!                                                                  reader_takes_bufread(), variants(), has_writer()
+//! struct Item { kind, name, bytes, side }                          Item::writable(), Item::write_bytes_deterministic()
+//! struct Side { reference_fasta, bed_n, model, writable, flush_every, bgzf_ops, cram_layout, indexed_item }
+//!
+//! items(seed, scale) -> Vec<Item>                                  deterministic in (seed, scale); scale 0/1/2
+//! items_with_tmp(seed, scale, tmpdir) -> Vec<Item>                 same, scratch files under `tmpdir`
+//! build_report(seed, scale) -> (Vec<Item>, Vec<BuildNote>)         + what could not be built (empty on the pinned tree)
+//! known_problem_items() -> Vec<Item>                               items left out because noodles cannot read its own output
+//!
+//! transcript_read(kind, src: impl Read, side, deep) -> Vec<String>
+//! transcript_read_cap(kind, src: impl Read, side, deep, cap)       explicit BufReader capacity for BufRead-based readers
+//! transcript_bufread(kind, src: impl BufRead, side, deep)          BufRead-based readers use `src` directly
+//! transcript_read_variant / transcript_bufread_variant(kind, variant, ...)   Variant::{Primary, Eager, Indexer}
+//! last_error_message() -> Option<String>                           text behind the last "ERR:" element (thread local)
+//!
+//! write_history(item, sink: impl Write) -> io::Result<()>
+//! prepare_write(item) -> io::Result<Prepared>; write_prepared(&Prepared, sink)   (decode once, replay many times)
+//! write_history_bgzf_drop(item, sink) -> io::Result<()>            writer dropped without finish (Kind::Bgzf)
+//! write_history_bgzf_mt(item, sink: impl Write + Send + 'static)   MultithreadedWriter (Kind::Bgzf)
+//!
+//! boundaries(item) -> Vec<usize>; inflated_payload(item); record_boundaries_in_payload(item); cram_layout(bytes)
+//! ```
+//!
+//! # Transcript elements
+//!
+//! One string per observed element, in order; the LAST element is always `"END"` (clean end of input) or
+//! `"ERR:<io::ErrorKind Debug>"` (first error; reading stops there). `\u{1f}` separates the parts of one element.
+//!
+//! * `H:<text>\u{1f}<extra>` — header. SAM-family (Sam, SamGz, Bam, BamRaw, Cram): the header re-emitted by
+//!   `sam::io::Writer`, extra = FNV-1a of `Debug` of the `sam::Header`. VCF-family: re-emitted by `vcf::io::Writer`,
+//!   extra = file format, sample names and the BCF string / contig dictionaries in index order (NOT `Debug` of
+//!   `vcf::Header`: it contains a std `HashMap`).
+//! * `R:<text>[\u{1f}<extra>]` — one record: the SAM / VCF / GFF3 / GTF / BED line re-emitted by noodles' own text
+//!   writer from the decoded value (or `!<ErrorKind>:<message>` if the writer rejects the value), for alignment
+//!   records followed by every aux field as `TG:<Debug of the typed value>;` (SAM text hides integer widths).
+//!   FASTA: `name TAB description|<none> TAB sequence`; FASTQ: `name TAB description TAB sequence TAB qualities`
+//!   (bytes escaped). GFF/GTF: `R:directive:…`, `R:comment:…`, `R:record:<line>\u{1f}<raw line>`.
+//! * `V:<u64>` — BGZF virtual position of the underlying `bgzf::io::Reader` after the header and after every record
+//!   (Bam, Bcf, SamGz, VcfGz) or after every read (Bgzf).
+//! * `D:<fnv hex>:<total>` — Bgzf only: FNV-1a of all bytes delivered so far and their count, after every
+//!   successful non-empty read. The driver cycles through a FIXED pattern of `read(n)` / `fill_buf+consume(n)` calls
+//!   (1, 2, 7, fill 5, 64, 300, fill all, 4096, 65536, 13, 70000, fill 1, 5, 65536) and retries `Interrupted`.
+//! * `C:<container header>` — Cram, Variant::Primary only: one per container (length, reference context, counts,
+//!   landmarks), before the container's records.
+//! * `I:<Debug of the index>` — index readers: ONE element for Bai / Csi / Tbi / Gzi / Fai / Crai; one element PER
+//!   RECORD for FastqFai (its reader is record-wise), for `Variant::Eager` of Crai (`read_record`) and for the
+//!   FASTA / FASTQ `Variant::Indexer` (one per `index_record()`).
+//! * `A:<fnv hex>:<len>` and `A-ERR:<accessor>:<ErrorKind>` — only with `deep = true`, after each record: digest of
+//!   everything the deep walk observed, then one element per accessor that returned an error (values, not panics).
+//!
+//! The rendering is a pure function of the decoded values. The drivers never catch panics: wrap the call in
+//! `vcore::guard::catch`.
+//!
+//! # Variants
+//!
+//! `Variant::Primary` = the lazy record API where there is one (`read_record(&mut Record)` for SAM / BAM / VCF / BCF /
+//! FASTQ / BED, `read_line(&mut Line)` for GFF / GTF, `read_definition` + `read_sequence` for FASTA,
+//! `read_container` → slices → records for CRAM, `read_index` for indexes). `Variant::Eager` = `read_record_buf`
+//! (SAM, BAM, VCF, BCF), `records()` (CRAM, FASTA, FASTQ), `line_bufs()` (GFF, GTF), `read_record` (CRAI).
+//! `Variant::Indexer` = `fasta::io::Indexer` / `fastq::io::Indexer`. `Kind::variants()` lists what exists;
+//! asking for a variant a kind does not have gives the Primary one.
+//!
+//! # Write histories
+//!
+//! `write_history` replays the logical content of the item (`side.model`: SAM text for Bam / BamRaw / Cram / Sam /
+//! SamGz, VCF text for Bcf / BcfRaw / Vcf / VcfGz, the inflated payload + `side.bgzf_ops` for Bgzf; `item.bytes`
+//! itself, decoded with the matching noodles reader, for text and index kinds) through the noodles writer of
+//! `item.kind`: header, every record (`flush()` on the BGZF layer after every `side.flush_every` records), the
+//! finishing call (`try_finish()`; CRAM `try_finish(&header)`; BGZF / CRAI `finish()`), `flush()` on the sink; the
+//! first error is returned. A BGZF layer finished with `try_finish` is dismantled with `into_inner()` — dropping it
+//! instead makes `bgzf::io::Writer::drop` append a SECOND EOF block (observed on the pinned tree).
+//! On a healthy sink the output equals `item.bytes` for every writable item EXCEPT `Kind::Cram`
+//! (`Item::write_bytes_deterministic()`): the CRAM writer keeps external blocks and tag encodings in std
+//! `HashMap`s and emits them in iteration order, so two runs give files of equal length and content but permuted
+//! blocks. For the same reason the CRAM items themselves are byte FIXTURES (`corpus/data/*.cram`, produced once by
+//! `corpus_selftest --regen-fixtures` from seed-independent models): their bytes are identical in every process
+//! and for every seed. Items with `side.writable == false` (hand-made bytes: independent BGZF encoder, CRLF /
+//! odd-width FASTA, …) have no write history: `write_history` returns `Err(Unsupported)` without touching the sink.
+//!
+//! # Scales
+//!
+//! 0 = tiny (one item per kind, ≤ ~2 kB, for Miri / ASan), 1 = quick (2–6 per kind: empty or header-only, small,
+//! forced multi-block / multi-container, one natural multi-block; ≤ ~60 kB), 2 = thorough (adds larger ones).
+
+pub mod bounds;
+pub mod items;
+pub mod read;
+pub mod render;
+pub mod textgen;
+pub mod write;
+
+use std::{
+    io::{self, BufRead, Read, Write},
+    path::Path,
+    sync::atomic::{AtomicU64, Ordering},
+};
+
+pub use bounds::{CramLayout, cram_layout};
+pub use items::{BuildNote, KnownProblem};
+pub use read::last_error_message;
+pub use write::{Model, Prepared, prepare_write, write_history_bgzf_drop, write_history_bgzf_mt, write_prepared};
+
+#[derive(Clone, Copy, Debug, PartialEq, Eq, Hash, PartialOrd, Ord)]
+pub enum Kind {
+    Bgzf,
+    Bam,
+    BamRaw,
+    Bcf,
+    BcfRaw,
+    Cram,
+    Sam,
+    SamGz,
+    Vcf,
+    VcfGz,
+    Fasta,
+    Fastq,
+    Gff,
+    Gtf,
+    Bed,
+    Bai,
+    Csi,
+    Tbi,
+    Gzi,
+    Fai,
+    FastqFai,
+    Crai,
+}
+
+/// Which of the reading APIs of a kind a transcript drives (see the crate docs).
+#[derive(Clone, Copy, Debug, PartialEq, Eq, Hash, PartialOrd, Ord)]
+pub enum Variant {
+    Primary,
+    Eager,
+    Indexer,
+}
+
+impl Kind {
+    pub const ALL: &[Kind] = &[
+        Kind::Bgzf,
+        Kind::Bam,
+        Kind::BamRaw,
+        Kind::Bcf,
+        Kind::BcfRaw,
+        Kind::Cram,
+        Kind::Sam,
+        Kind::SamGz,
+        Kind::Vcf,
+        Kind::VcfGz,
+        Kind::Fasta,
+        Kind::Fastq,
+        Kind::Gff,
+        Kind::Gtf,
+        Kind::Bed,
+        Kind::Bai,
+        Kind::Csi,
+        Kind::Tbi,
+        Kind::Gzi,
+        Kind::Fai,
+        Kind::FastqFai,
+        Kind::Crai,
+    ];
+
+    pub fn name(self) -> &'static str {
+        match self {
+            Kind::Bgzf => "bgzf",
+            Kind::Bam => "bam",
+            Kind::BamRaw => "bamraw",
+            Kind::Bcf => "bcf",
+            Kind::BcfRaw => "bcfraw",
+            Kind::Cram => "cram",
+            Kind::Sam => "sam",
+            Kind::SamGz => "samgz",
+            Kind::Vcf => "vcf",
+            Kind::VcfGz => "vcfgz",
+            Kind::Fasta => "fasta",
+            Kind::Fastq => "fastq",
+            Kind::Gff => "gff",
+            Kind::Gtf => "gtf",
+            Kind::Bed => "bed",
+            Kind::Bai => "bai",
+            Kind::Csi => "csi",
+            Kind::Tbi => "tbi",
+            Kind::Gzi => "gzi",
+            Kind::Fai => "fai",
+            Kind::FastqFai => "fastqfai",
+            Kind::Crai => "crai",
+        }
+    }
+
+    pub fn from_name(s: &str) -> Option<Kind> {
+        Kind::ALL.iter().copied().find(|k| k.name() == s)
+    }
+
+    pub fn is_index(self) -> bool {
+        matches!(self, Kind::Bai | Kind::Csi | Kind::Tbi | Kind::Gzi | Kind::Fai | Kind::FastqFai | Kind::Crai)
+    }
+
+    /// The file is a sequence of BGZF members (so `vcore::bgzf::walk` / `reseal` apply).
+    pub fn is_bgzf_wrapped(self) -> bool {
+        matches!(self, Kind::Bgzf | Kind::Bam | Kind::Bcf | Kind::SamGz | Kind::VcfGz | Kind::Csi | Kind::Tbi)
+    }
+
+    /// The noodles reader of this kind takes `R: BufRead` directly from the byte source (so the `BufReader`
+    /// capacity / the `fill_buf` windows of the source matter); the others take `R: Read`.
+    pub fn reader_takes_bufread(self) -> bool {
+        matches!(
+            self,
+            Kind::Sam | Kind::Vcf | Kind::Fasta | Kind::Fastq | Kind::Gff | Kind::Gtf | Kind::Bed | Kind::Fai | Kind::FastqFai
+        )
+    }
+
+    /// The reading APIs a transcript can drive for this kind.
+    pub fn variants(self) -> &'static [Variant] {
+        match self {
+            Kind::Bam | Kind::BamRaw | Kind::Bcf | Kind::BcfRaw | Kind::Cram | Kind::Sam | Kind::SamGz | Kind::Vcf | Kind::VcfGz | Kind::Gff | Kind::Gtf => {
+                &[Variant::Primary, Variant::Eager]
+            }
+            Kind::Fasta | Kind::Fastq => &[Variant::Primary, Variant::Eager, Variant::Indexer],
+            _ => &[Variant::Primary],
+        }
+    }
+
+    /// noodles has a writer for this kind (all kinds have one).
+    pub fn has_writer(self) -> bool {
+        true
+    }
+}
+
+#[derive(Clone, Copy, Debug, PartialEq, Eq)]
+pub enum BgzfOp {
+    /// `write_all` of the next `n` payload bytes
+    Write(usize),
+    /// `flush()` (ends the current block if anything is staged)
+    Flush,
+}
+
+/// What a reader / writer needs besides the bytes.
+#[derive(Clone, Debug, Default)]
+pub struct Side {
+    /// CRAM: FASTA text of the reference sequences
+    pub reference_fasta: Option<Vec<u8>>,
+    /// BED: number of standard fields of the `Record<N>` to read with (3..=6; 0 for other kinds)
+    pub bed_n: u8,
+    /// Logical content the write history replays for binary record kinds and BGZF: SAM text (Bam, BamRaw, Cram,
+    /// Sam, SamGz), VCF text (Bcf, BcfRaw, Vcf, VcfGz), inflated payload (Bgzf). `None` for text / index kinds
+    /// (their model is `item.bytes`) and for hand-made items.
+    pub model: Option<Vec<u8>>,
+    /// `write_history` is defined for this item and reproduces `item.bytes` (modulo `write_bytes_deterministic`)
+    pub writable: bool,
+    /// BGZF-wrapped record kinds: `flush()` on the BGZF layer after every n records (0 = never)
+    pub flush_every: usize,
+    /// Bgzf: the write/flush calls of the history (payload bytes not covered are written at the end)
+    pub bgzf_ops: Vec<BgzfOp>,
+    /// CRAM: `verif_set_layout(records_per_slice, slices_per_container)` used by the write history
+    pub cram_layout: Option<(usize, usize)>,
+    /// index kinds: name of the data item (same `items()` call) this index was built from
+    pub indexed_item: Option<String>,
+}
+
+#[derive(Clone, Debug)]
+pub struct Item {
+    pub kind: Kind,
+    /// stable, descriptive: "bam/multiblock-3refs-64recs", "bai/of-bam-multiblock-3refs-64recs"
+    pub name: String,
+    pub bytes: Vec<u8>,
+    pub side: Side,
+}
+
+impl Item {
+    pub fn writable(&self) -> bool {
+        self.side.writable
+    }
+
+    /// On a healthy sink `write_history` yields exactly `self.bytes` (false for CRAM: see the crate docs; compare
+    /// transcripts instead).
+    pub fn write_bytes_deterministic(&self) -> bool {
+        self.side.writable && self.kind != Kind::Cram
+    }
+}
+
+static TMP_COUNTER: AtomicU64 = AtomicU64::new(0);
+
+/// Deterministic in `(seed, scale)`. Scratch files (the `*::fs::index` functions take paths) go to a private
+/// sub-directory of `std::env::temp_dir()`, which is removed before returning.
+pub fn items(seed: u64, scale: u8) -> Vec<Item> {
+    build_report(seed, scale).0
+}
+
+/// Like [`items`], plus the notes about anything that could not be built (writer rejected a model, indexer
+/// failed or panicked, …). On the pinned tree the notes are empty apart from known noodles defects.
+pub fn build_report(seed: u64, scale: u8) -> (Vec<Item>, Vec<BuildNote>) {
+    let dir = std::env::temp_dir().join(format!(
+        "verif-corpus-{}-{}-{seed}-{scale}",
+        std::process::id(),
+        TMP_COUNTER.fetch_add(1, Ordering::Relaxed)
+    ));
+    let _ = std::fs::create_dir_all(&dir);
+    let r = items::build(seed, scale, &dir);
+    let _ = std::fs::remove_dir_all(&dir);
+    r
+}
+
+/// Like [`items`] with scratch files under `tmpdir` (must exist; file names are derived from item names, so
+/// concurrent callers need distinct directories). The scratch files are removed, the directory is kept.
+pub fn items_with_tmp(seed: u64, scale: u8, tmpdir: &Path) -> Vec<Item> {
+    items::build(seed, scale, tmpdir).0
+}
+
+/// Items that had to be left out of [`items`] because a noodles reader cannot read what the matching noodles
+/// writer wrote on the unchanged tree (seed independent). The multi-record CRAI items inside [`items`] share
+/// problem 3 for `(Kind::Crai, Variant::Eager)`, which is why `Kind::Crai.variants()` lists `Primary` only.
+pub fn known_problem_items() -> Vec<Item> {
+    items::known_problems().into_iter().map(|k| k.item).collect()
+}
+
+/// The same with the variant that shows the problem and a description.
+pub fn known_problems() -> Vec<KnownProblem> {
+    items::known_problems()
+}
+
+/// Default capacity of the `std::io::BufReader` that [`transcript_read`] puts around a plain `Read` for
+/// BufRead-based readers.
+pub const DEFAULT_CAP: usize = 8192;
+
+/// Canonical reading of `kind` from any byte source until end of input or the first error (see crate docs).
+pub fn transcript_read<R: Read>(kind: Kind, src: R, side: &Side, deep: bool) -> Vec<String> {
+    transcript_read_variant(kind, Variant::Primary, src, side, deep, DEFAULT_CAP)
+}
+
+/// [`transcript_read`] with an explicit `BufReader` capacity (only matters if `kind.reader_takes_bufread()`).
+pub fn transcript_read_cap<R: Read>(kind: Kind, src: R, side: &Side, deep: bool, cap: usize) -> Vec<String> {
+    transcript_read_variant(kind, Variant::Primary, src, side, deep, cap)
+}
+
+/// Same for sources that are `BufRead`: BufRead-based readers get `src` itself (tiny `fill_buf` windows reach
+/// the noodles code); Read-based readers use it as a plain `Read`.
+pub fn transcript_bufread<R: BufRead>(kind: Kind, src: R, side: &Side, deep: bool) -> Vec<String> {
+    transcript_bufread_variant(kind, Variant::Primary, src, side, deep)
+}
+
+pub fn transcript_read_variant<R: Read>(kind: Kind, variant: Variant, mut src: R, side: &Side, deep: bool, cap: usize) -> Vec<String> {
+    read::drive(kind, variant, read::Src::Read(&mut src, cap), side, deep)
+}
+
+pub fn transcript_bufread_variant<R: BufRead>(kind: Kind, variant: Variant, mut src: R, side: &Side, deep: bool) -> Vec<String> {
+    read::drive(kind, variant, read::Src::BufRead(&mut src), side, deep)
+}
+
+/// Canonical write history of `item` onto `sink` (see crate docs). `Err(Unsupported)` — without touching the
+/// sink — if `!item.writable()`.
+pub fn write_history<W: Write>(item: &Item, sink: W) -> io::Result<()> {
+    let p = prepare_write(item)?;
+    write_prepared(&p, sink)
+}
+
+/// Structural boundaries of the file, sorted, deduplicated, always containing 0 and `bytes.len()`:
+/// BGZF-wrapped kinds: start of every BGZF member (EOF marker included); Cram: the end of the file definition
+/// (26), every container header, the first byte after every container header, every slice header block
+/// (container body + landmark); text kinds (Sam, Vcf, Fasta, Fastq, Gff, Gtf, Bed, Fai, FastqFai): every line
+/// start; BamRaw / BcfRaw: end of the header and every record start; Bai: every reference, bin and linear-index
+/// start; Gzi: every entry; Crai: end of the gzip header and start of the gzip trailer.
+pub fn boundaries(item: &Item) -> Vec<usize> {
+    bounds::boundaries(item)
+}
+
+/// For BGZF-wrapped kinds: the inflated stream (independent walker `vcore::bgzf::walk_prefix`).
+pub fn inflated_payload(item: &Item) -> Option<Vec<u8>> {
+    bounds::inflated_payload(item)
+}
+
+/// Record boundaries in the (inflated) stream: `[b0, b1, …, bn]` with `b0` = end of the header = start of the
+/// first record, `bi` = start of record i, `bn` = end of the last record (= stream length for a valid file).
+/// BamRaw / BcfRaw: offsets in `item.bytes`; Bam / Bcf: offsets in `inflated_payload(item)`; SamGz / VcfGz:
+/// line starts (header lines included) and the stream length in `inflated_payload(item)`. `None` for other kinds.
+/// `bounds::{bam_record_offsets, bcf_record_offsets, line_starts}` work on any byte stream (e.g. what an
+/// independent walker inflates from a truncated file).
+pub fn record_boundaries_in_payload(item: &Item) -> Option<Vec<usize>> {
+    bounds::record_boundaries_in_payload(item)
+}
